@@ -400,4 +400,21 @@ theorem Good.merge {P : Rect → Prop} {rects : List Rect} {a b : Seg} (ga : Goo
     · obtain ⟨h1, h2⟩ := gb.inr q hq
       exact ⟨le_trans (min_le_right _ _) h1, le_trans h2 (le_max_right _ _)⟩
 
+/-- one coordinate of a closed segment point that lies in an open interval: there is a point of the OPEN
+    segment in the same open interval -/
+theorem open_point_near {a b t r0 r1 : Rat} (hab : a < b) (h0 : 0 ≤ t) (h1 : t ≤ 1)
+    (hr0 : r0 < a + t * (b - a)) (hr1 : a + t * (b - a) < r1) :
+    ∃ m, a < m ∧ m < b ∧ r0 < m ∧ m < r1 := by
+  have hd : 0 ≤ t * (b - a) := mul_nonneg h0 (by linarith)
+  have hd' : 0 ≤ (1 - t) * (b - a) := mul_nonneg (by linarith) (by linarith)
+  have hx0 : a ≤ a + t * (b - a) := by linarith
+  have hx1 : a + t * (b - a) ≤ b := by nlinarith
+  have l1 := le_max_left a r0
+  have l2 := le_max_right a r0
+  have u1 := min_le_left b r1
+  have u2 := min_le_right b r1
+  have hlt : max a r0 < min b r1 := by
+    apply max_lt <;> apply lt_min <;> linarith
+  exact ⟨(max a r0 + min b r1) / 2, by linarith, by linarith, by linarith, by linarith⟩
+
 end AdaptaVerif.Lemmas.OrthVis
